@@ -43,7 +43,7 @@ func c06Gen(r *Rng, tier string, i int) Sx {
 		}
 	}
 	intercept := ""
-	if r.Chance(1, 6) {
+	if r.Chance(1, 4) {
 		intercept = g.probePath(t)
 		if r.Bool() {
 			intercept = r.Pick([]string{intercept + "/", " " + intercept, strings.TrimPrefix(intercept, "/")})
@@ -68,6 +68,11 @@ func c06Gen(r *Rng, tier string, i int) Sx {
 			kind = "s"
 		}
 		qs = append(qs, L(A(kind), S(m), S(g.probePath(t))))
+	}
+	// options are applied in the order listed: the order must not matter
+	for k := len(opts) - 1; k > 0; k-- {
+		j := r.Intn(k + 1)
+		opts[k], opts[j] = opts[j], opts[k]
 	}
 	return L(A("rt"), LS(opts), LS(defs), LS(qs))
 }
